@@ -9,6 +9,7 @@ import (
 
 	v3 "github.com/projectcalico/api/pkg/apis/projectcalico/v3"
 
+	"github.com/projectcalico/calico/libcalico-go/lib/backend/model"
 	"github.com/projectcalico/calico/libcalico-go/lib/ipam"
 
 	"verifsim/core"
@@ -25,7 +26,8 @@ func run(r *core.R) {
 	r.FaultDecl("conflict", "error_before", "crash_before", "crash_after", "clock_jump", "stall")
 	r.ProbeDecl("affinity_confirmed", "released", "reused_after_cooldown", "block_created", "block_deleted", "borrowed_from_non_affine_block",
 		"autoassign_acked", "autoassign_empty", "assignip_acked", "observed_release_rejected", "handle_tainted_by_fault", "restart", "liveness_checked",
-		"concurrent_same_host", "reclaim_of_foreign_empty_block_started", "owner_revives_claim_marked_for_deletion")
+		"concurrent_same_host", "reclaim_of_foreign_empty_block_started", "owner_revives_claim_marked_for_deletion",
+		"confirmed_claim_without_block", "opportunist_claim")
 	w := newWorld(r)
 	w.or = newOracle(w)
 	w.st.OnWrite = append(w.st.OnWrite, w.or.onWrite)
@@ -142,6 +144,15 @@ func run(r *core.R) {
 		if w.contention && q.Write && src.Chance(150, "stall_claim") {
 			return src.Range(3, 40, "stall_len")
 		}
+		if c := w.reclaiming[q.Actor.Name]; c != "" && q.Write && q.Op == "delete" {
+			// directed: a reclaimer that has marked a foreign claim for deletion is held back just before it deletes
+			// the block, so that the owner's concurrent operations land inside that window
+			delete(w.reclaiming, q.Actor.Name)
+			if src.Chance(700, "stall_reclaimer") {
+				r.Fault("stall")
+				return src.Range(8, 40, "stall_len_r")
+			}
+		}
 		if w.staleRel && src.Chance(80, "stall_any") {
 			return src.Range(2, 25, "stall_len_s")
 		}
@@ -158,7 +169,34 @@ func run(r *core.R) {
 
 	// restarts: when a caller has crashed, a fresh process for the same host may start later
 	restarts := 0
+	opportunists := 0
 	w.s.OnStep = func(step int) {
+		// opportunist: a confirmed claim without a block was seen (oracle.checkAffinities); another host now
+		// claims that block in one atomic operation
+		for len(w.oppQueue) > 0 && opportunists < 2 {
+			q := w.oppQueue[0]
+			w.oppQueue = w.oppQueue[1:]
+			if k := "host:" + q.owner + "|" + q.cidr; w.or.affState(k) != string(model.StateConfirmed) || w.or.blocks[q.cidr] != nil {
+				continue // the state has moved on
+			}
+			host := ""
+			for _, h := range w.hosts {
+				if h != q.owner {
+					host = h
+					break
+				}
+			}
+			if host == "" {
+				continue
+			}
+			opportunists++
+			r.Probe("opportunist_claim")
+			a := mk(fmt.Sprintf("opp%d", opportunists), host)
+			a.sa.Direct = true
+			a.claimDirect(sched.WithActor(context.Background(), a.sa), q.cidr)
+			a.sa.Done = true
+		}
+		w.oppQueue = nil
 		if !w.s.FaultsOn || restarts >= 3 {
 			return
 		}
